@@ -1,7 +1,7 @@
 (* IPV.C12.RKProofs — facts about the scheme regenerated from Phreeqc::rk_kinetics (Gen_C12_Tableau.v).
    Every lemma here is re-checked against the regenerated file on every run: a changed coefficient,
    time offset or combination makes [field]/[vm_compute] fail. *)
-Require Import QArith Qabs List Lia Lra Lqa Field.
+Require Import QArith Qabs List Lia Lra Lqa Field Psatz.
 Import ListNotations.
 Require Import IPV.C12.RK IPV.Gen.Gen_C12_Tableau IPV.C12.Inst.
 Open Scope Q_scope.
@@ -148,3 +148,56 @@ Qed.
 Lemma exit_weights_sum_to_one :
   qsum (coefs g_exit1) == 1 /\ qsum (coefs g_exit2) == 1 /\ qsum (coefs g_exit3) == 1.
 Proof. repeat split; vm_compute; reflexivity. Qed.
+(* for first-order decay with 0 <= lam h <= 1 no stage state is negative: the clamp of
+   calc_final_kinetic_reaction is inactive and the unclamped model is the code *)
+Theorem linear_states_nonneg : forall lam t0 hs h m0, 0 <= m0 -> 0 <= lam * h -> lam * h <= 1 ->
+  let f := fun (_ : Q) m => lam * m in
+  let a1 := k1 CK f t0 hs h m0 in let a2 := k2 CK f t0 hs h m0 in let a3 := k3 CK f t0 hs h m0 in
+  let a4 := k4 CK f t0 hs h m0 in let a5 := k5 CK f t0 hs h m0 in let a6 := k6 CK f t0 hs h m0 in
+  0 <= m0 - s2 CK a1 0 0 0 0 0 /\ 0 <= m0 - s3 CK a1 a2 0 0 0 0 /\ 0 <= m0 - s4 CK a1 a2 a3 0 0 0 /\
+  0 <= m0 - s5 CK a1 a2 a3 a4 0 0 /\ 0 <= m0 - s6 CK a1 a2 a3 a4 a5 0 /\ 0 <= m0 - res CK a1 a2 a3 a4 a5 a6.
+Proof.
+  intros lam t0 hs h m0 Hm H0 H1. cbv zeta.
+  set (z := lam * h) in *.
+  assert (E2 : m0 - s2 CK (k1 CK (fun _ m => lam * m) t0 hs h m0) 0 0 0 0 0 == m0 * (1 - z * (1#5))).
+  { subst z. unfold_step. field. }
+  assert (E3 : m0 - s3 CK (k1 CK (fun _ m => lam * m) t0 hs h m0) (k2 CK (fun _ m => lam * m) t0 hs h m0) 0 0 0 0 == m0 * (1 - z*(3#10) + z*z*(9#200))).
+  { subst z. unfold_step. field. }
+  assert (E4 : m0 - s4 CK (k1 CK (fun _ m => lam * m) t0 hs h m0) (k2 CK (fun _ m => lam * m) t0 hs h m0) (k3 CK (fun _ m => lam * m) t0 hs h m0) 0 0 0 == m0 * (1 - z*(3#5) + z*z*(9#50) - z*z*z*(27#500))).
+  { subst z. unfold_step. field. }
+  assert (E5 : m0 - s5 CK (k1 CK (fun _ m => lam * m) t0 hs h m0) (k2 CK (fun _ m => lam * m) t0 hs h m0) (k3 CK (fun _ m => lam * m) t0 hs h m0) (k4 CK (fun _ m => lam * m) t0 hs h m0) 0 0 == m0 * (1 - z + z*z*(1#2) - z*z*z*(7#60) + z*z*z*z*(7#100))).
+  { subst z. unfold_step. field. }
+  assert (E6 : m0 - s6 CK (k1 CK (fun _ m => lam * m) t0 hs h m0) (k2 CK (fun _ m => lam * m) t0 hs h m0) (k3 CK (fun _ m => lam * m) t0 hs h m0) (k4 CK (fun _ m => lam * m) t0 hs h m0) (k5 CK (fun _ m => lam * m) t0 hs h m0) 0 == m0 * (1 - z*(7#8) + z*z*(49#128) - z*z*z*(161#1536) + z*z*z*z*(1771#61440) - z*z*z*z*z*(1771#409600))).
+  { subst z. unfold_step. field. }
+  pose proof (linear_exact lam t0 hs h m0) as E7. cbv zeta in E7. fold z in E7. unfold step_m, step_moles in E7.
+  rewrite E2, E3, E4, E5, E6, E7. unfold taylor5. rewrite kappa6_value.
+  assert (Z2 : 0 <= z * z) by nra.
+  assert (Z1 : z * z <= z) by nra.
+  repeat split; apply Qmult_le_0_compat; try assumption; nra.
+Qed.
+
+(* first-order decay, one step: the distance of the result from m0 * (degree-6 Taylor polynomial of exp(-z)) is at most
+   (2/3) z times the error estimate the controller tests; so an accepted step (|estimate| <= tol) with z = lam h <= 1
+   is within (2/3) tol of m0*T6(z), and |exp(-z) - T6(z)| <= z^7/5040 is the classical alternating-series remainder *)
+Theorem linear_local_error_bounded_by_estimate : forall lam t0 hs h m0, 0 <= m0 -> 0 <= lam * h ->
+  let z := lam * h in
+  Qabs (step_m CK (fun _ m => lam * m) t0 hs h m0 - m0 * taylor6 z) <= (2#3) * z * Qabs (step_est CK (fun _ m => lam * m) t0 hs h m0).
+Proof.
+  intros lam t0 hs h m0 Hm Hz z.
+  assert (Hz' : 0 <= z) by exact Hz.
+  pose proof (linear_exact lam t0 hs h m0) as E. cbv zeta in E. fold z in E.
+  pose proof (linear_est lam t0 hs h m0) as F. cbv zeta in F. fold z in F.
+  rewrite E, F, kappa6_value. unfold taylor6. clear E F Hz. clearbody z.
+  set (P := m0 * (z*z*z*z*z)).
+  assert (HP : 0 <= P).
+  { unfold P. repeat apply Qmult_le_0_compat; try exact Hm; exact Hz'. }
+  assert (E1 : m0 * (taylor5 z + (1 # 800) * (z*z*z*z*z*z)) - m0 * (taylor5 z + z*z*z*z*z*z*(1#720)) == - (P * z * (1#7200))).
+  { unfold P. ring. }
+  assert (E2 : - m0 * (z*z*z*z*z) * ((277 # 1228800) + (277 # 1638400) * z) == - (P * ((277 # 1228800) + (277 # 1638400) * z))).
+  { unfold P. ring. }
+  rewrite E1, E2, !Qabs_opp.
+  assert (HPz : 0 <= P * z) by (apply Qmult_le_0_compat; [exact HP|exact Hz']).
+  rewrite (Qabs_pos (P * z * (1#7200))) by nra.
+  rewrite (Qabs_pos (P * ((277 # 1228800) + (277 # 1638400) * z))) by nra.
+  nra.
+Qed.
